@@ -2,7 +2,7 @@
 # runs every seeded change under /verif/seeded against the check of the
 # property it breaks (scratch worktrees only); appends to selftest/mutants_result.txt
 cd /verif
-out=/verif/selftest/mutants_result.txt
+out=${MUTANTS_OUT:-/verif/selftest/mutants_result.last.txt}
 : > "$out.tmp"
 for d in /verif/seeded/*/; do
   n=$(basename "$d")
